@@ -28,7 +28,7 @@ RULE = (
     "(every constructor incl. the empty-policy/empty-name fall-throughs, Add, Sub, Neg): "
     "corpus; exhaustive pairs (a,b) over 3 classes x amounts -2..2 with random construction "
     "paths (thorough: a third of the full cube of triples); random classes with amounts across "
-    "the i128 range; an overflow stream; the law zero_immaterial on every triple (a value and the same value after a trip through + answer is_empty, is_empty_or_negative, is_only_naked, contains_some and contains_total alike, on either side). Non-trivial = a and b both have a non-zero amount; "
+    "the i128 range; an overflow stream; asset lists that name one class two or three times in the expr-law pool; the law zero_immaterial on every triple (a value and the same value after a trip through + answer is_empty, is_empty_or_negative, is_only_naked, contains_some and contains_total alike, on either side). Non-trivial = a and b both have a non-zero amount; "
     "distinct = distinct (a,b,c) trees"
 )
 
